@@ -1,5 +1,6 @@
 #include "steps.h"
 
+#include <execinfo.h>
 #include <stdlib.h>
 #include <string.h>
 
@@ -139,7 +140,11 @@ __attribute__((no_sanitize("address"))) uint64_t CheapHash() {
   return s.h.Digest();
 }
 
+void *g_bt[24];
+int g_bt_n = 0;
+
 [[noreturn]] void Finish(int verdict) {
+  g_bt_n = backtrace(g_bt, 24);
   sim_steps_on = 0;
   sim_steps_anchor = 0;
   sim_steps_limit = ~0ull;
@@ -216,6 +221,11 @@ void StepsStop() {
   g_lasso_mode = false;
 }
 
+int StepsLastBacktrace(void **out, int max) {
+  int n = g_bt_n < max ? g_bt_n : max;
+  for (int i = 0; i < n; ++i) out[i] = g_bt[i];
+  return n;
+}
 uint32_t StepsLastGuard() { return g_last_guard; }
 uint64_t StepsLassoVisits() { return g_total_visits; }
 uintptr_t StepsLastPc() { return g_last_pc; }
